@@ -308,18 +308,18 @@ func doCheck(id, tier string) int {
 		"seed":        int64(seed),
 		"level":       spec.level,
 		"coverage": map[string]any{
-			"evaluations":         evals,
-			"distinct_nontrivial": distinctNT,
-			"rule":                spec.rule,
-			"samples":             samples,
-			"explanation":         spec.explanation,
-			"engines":             perEngine,
-			"counters":            allStats,
-			"simulated_time":      "this library has no clock; simulated time is the yield/event sequence: see counters.*.steps",
-			"instrumentation":     map[string]any{"sites_S": b.instr.NS, "sites_F": b.instr.NF, "sites_O": b.instr.NO, "lock_statements": b.instr.NLock, "spin_loop_sites": b.instr.NLoop, "files": b.instr.Files},
-			"real_code":           spec.real,
-			"stubs":               spec.stubs,
-			"build_s":             round1(b.buildSecs),
+			"evaluations":           evals,
+			"distinct_nontrivial":   distinctNT,
+			"rule":                  spec.rule,
+			"samples":               samples,
+			"explanation":           spec.explanation,
+			"engines":               perEngine,
+			"counters":              allStats,
+			"simulated_time":        "this library has no clock; simulated time is the yield/event sequence: see counters.*.steps",
+			"instrumentation":       map[string]any{"sites_S": b.instr.NS, "sites_F": b.instr.NF, "sites_O": b.instr.NO, "lock_statements": b.instr.NLock, "spin_loop_sites": b.instr.NLoop, "files": b.instr.Files},
+			"real_code":             spec.real,
+			"stubs":                 spec.stubs,
+			"build_s":               round1(b.buildSecs),
 			"infrastructure_errors": infraErrs,
 		},
 		"assumptions": spec.assumptions,
